@@ -226,6 +226,40 @@ func kStructural(x *vc.Exec, lr *vc.LoadResult, repo string, res *vc.PassResult,
 		}
 	}
 	sink.Structural("internal", "determinism", "no-package-level-state-written", []string{"C17"}, true, fmt.Sprintf("%d functions scanned", len(fns)))
+	// C17: ... and no package-level variable of the generator's packages is used
+	// other than by reading its value: its address is never taken (method call
+	// with a pointer receiver, field address, argument), so no state can be kept
+	// in it from one file or directive to the next
+	nglob := 0
+	for _, fn := range fns {
+		if fn.Name() == "init" || strings.HasPrefix(fn.Name(), "init#") {
+			continue
+		}
+		for _, b := range fn.Blocks {
+			for _, in := range b.Instrs {
+				for _, op := range in.Operands(nil) {
+					g, ok := (*op).(*ssa.Global)
+					if !ok || g.Pkg == nil || !strings.HasPrefix(g.Pkg.Pkg.Path(), "go.uber.org/cff") {
+						continue
+					}
+					nglob++
+					if ld, ok := in.(*ssa.UnOp); ok && ld.Op == token.MUL && ld.X == g {
+						continue // plain read of the variable's value
+					}
+					if _, ok := in.(*ssa.DebugRef); ok {
+						continue
+					}
+					if st, ok := in.(*ssa.Store); ok && st.Addr == g {
+						continue // reported above
+					}
+					counts["global_address_uses"]++
+					sink.Structural(relName(fn), "determinism", "package-level-variables-are-only-read", []string{"C17"}, false,
+						"address of package variable "+g.Name()+" used at "+pos(in)+" ("+strings.TrimSpace(in.String())+"): state reachable through it outlives the file being generated")
+				}
+			}
+		}
+	}
+	sink.Structural("internal", "determinism", "package-level-variables-are-only-read", []string{"C17"}, true, fmt.Sprintf("%d uses of package variables scanned", nglob))
 	// A-slice: the engine gives slices value semantics (append returns a new
 	// value). That is unsound exactly where a re-sliced view x[a:b] of a live
 	// slice is written through (append into its spare capacity, element store,
@@ -252,6 +286,31 @@ func kStructural(x *vc.Exec, lr *vc.LoadResult, repo string, res *vc.PassResult,
 	}
 	counts["reslices_of_slices"] = nres
 	sink.Structural("internal", "frame", "no-write-through-a-resliced-view-of-a-live-slice", []string{"C02", "C10", "C11", "C13", "C14", "C16"}, true, fmt.Sprintf("%d re-slice expressions scanned in %d functions", nres, len(fns)))
+	// A-typeid: the engine identifies a go/types.Type with its identity term. That
+	// matches the library only where types are compared through types.Identical /
+	// typeutil.Map; a direct == or != between two types.Type values (other than
+	// against nil) compares pointers and distinguishes identical composite types.
+	ncmp := 0
+	for _, fn := range fns {
+		for _, b := range fn.Blocks {
+			for _, in := range b.Instrs {
+				bo, ok := in.(*ssa.BinOp)
+				if !ok || (bo.Op != token.EQL && bo.Op != token.NEQ) {
+					continue
+				}
+				if !isGoTypesType(bo.X.Type()) && !isGoTypesType(bo.Y.Type()) {
+					continue
+				}
+				if isNilConst(bo.X) || isNilConst(bo.Y) {
+					continue
+				}
+				ncmp++
+				sink.Structural(relName(fn), "frame", "types-are-compared-by-identity-of-meaning-not-of-pointer", []string{"C14", "C02", "C11", "C13"}, false,
+					"go/types.Type values compared with "+bo.Op.String()+" at "+pos(bo)+": identical composite types have distinct pointers (use types.Identical or typeutil.Map)")
+			}
+		}
+	}
+	sink.Structural("internal", "frame", "types-are-compared-by-identity-of-meaning-not-of-pointer", []string{"C14", "C02", "C11", "C13"}, true, fmt.Sprintf("%d functions scanned, %d pointer comparisons of types", len(fns), ncmp))
 	// C20: the source-map flag only selects comment emission
 	checkSourceMapFrame(sink, lr, fns, pos)
 	res.Extra["frame_counts"] = counts
@@ -692,4 +751,18 @@ func writtenThrough(root ssa.Value) string {
 		}
 	}
 	return ""
+}
+
+func isGoTypesType(t types.Type) bool {
+	n, ok := t.(*types.Named)
+	if !ok {
+		return false
+	}
+	o := n.Obj()
+	return o.Pkg() != nil && o.Pkg().Path() == "go/types" && o.Name() == "Type"
+}
+
+func isNilConst(v ssa.Value) bool {
+	c, ok := v.(*ssa.Const)
+	return ok && c.Value == nil
 }
